@@ -25,7 +25,7 @@ for d in seeded/*/; do
   for c in $checks; do
     mkdir -p .work
     VERIF_REPO=$wt VERIF_SCRATCH=sm timeout 1500 ./check $c quick > .work/sm-$name-$c.out 2>&1; rc=$?
-    sig=$(grep -m1 -o 'sig=[^ ]*' .work/sm-$name-$c.out)
+    sig=$(grep -a -m1 -o 'sig=[^ ]*' .work/sm-$name-$c.out)
     line="$line $c rc=$rc $sig;"
   done
   echo "$line" | tee -a "$out"
